@@ -135,6 +135,7 @@ pub fn fmt_case(u: &mut Unstructured) -> R<FmtCase> {
         tags,
         container,
         handler: u.arbitrary()?,
+        handler_panic_at: None,
     };
     let mut calls = Vec::new();
     let nc = u.int_in_range(1usize..=6)?;
